@@ -272,7 +272,7 @@ func TestC12(t *testing.T) {
 	})
 }
 
-func queryDigestAfterInit(c *Chain) map[string]string { return map[string]string{} }
+func queryDigestAfterInit(c *Chain) map[string]string            { return map[string]string{} }
 func mapWithout(m map[string]string, k string) map[string]string { return m }
 
 func validateExportedStrict(c *Chain, appState []byte) error {
